@@ -69,4 +69,16 @@ def gapsInd (n : Nat) : LSt → List TI → List (TI × Str)
 /-- the text of `encode(m, semi, indent=n)` (one item) / `dumps(ms, semi, indent=n)` (the items' tokens in a row). -/
 def renderIxInd (n : Nat) (ts : List TI) : Str := renderG (gapsInd n {} ts)
 
+/-- the un-indented layout of a DOCUMENT (`_encode` with indent None/False: the items' texts joined by one blank):
+a blank between two adjacent symbols (the constraints) and after every closing angle bracket that is not the last token. -/
+def gapsFlat : List TI → List (TI × Str)
+  | [] => []
+  | t :: r =>
+    (t, match r.head? with
+        | some u => if (t.kind = KI.symbol ∧ u.kind = KI.symbol) ∨ t.kind = KI.rangle then [' '] else []
+        | none => []) :: gapsFlat r
+
+/-- the text of `dumps(ms, semi)` (indent off) for the items' tokens in a row; for one item it is `renderIx`. -/
+def renderIxDoc (ts : List TI) : Str := renderG (gapsFlat ts)
+
 end Verif.C01.IxLex
